@@ -10,7 +10,18 @@ func implies(a, b bool) bool { return !a || b }
 // number of events accepted by the buffer so far
 func ghost_queued() int { panic("ghost") }
 
+// the buffer holds (owns) the event t
+func ghost_buffered[T any](t *T) bool { panic("ghost") }
+
 //@ func (*MPSC).TryPush : C05 C06 C04
 //@   assumed C16 is not applicable; an accepted event is handed to the consumer exactly once
-//@   modifies ghost_queued()
+//@   modifies ghost_queued(), ghost_buffered(t)
+//@   ensures [refused-event-stays-with-the-caller] !result ==> ghost_buffered(t) == pre(ghost_buffered(t))
 //@   ensures [accepted-iff-true] (result ==> ghost_queued() == pre(ghost_queued()) + 1) && (!result ==> ghost_queued() == pre(ghost_queued()))
+
+//@ func (*MPSC).TryPop : C05 C06
+//@   assumed C16 is not applicable; returns nil (nothing buffered) or an event that was accepted by TryPush and not yet handed out
+
+//@ func (*MPSC).Size : C05
+//@   assumed C16 is not applicable
+//@   ensures [size-nonneg] result >= 0
